@@ -1,1 +1,325 @@
-/- C20 — property theorems (stub: not built yet). -/
+/-
+C20 — Pattern grouping partitions the notes; combinations are exactly the allowed ones.
+Property theorems (helper lemmas live in `Reamber/Lemmas/Pattern*.lean`).  Statements are about the executable
+model `Reamber/Model/Pattern.lean`, which the correspondence check ties to
+reamber/algorithms/pattern/{Pattern.py, combos/*.py, filters/PtnFilter.py} on every run, and are stated against
+the same `Spec/Pattern.lean` predicates the driver evaluates on the implementation's output.
+-/
+import Reamber.Lemmas.PatternGroup
+import Reamber.Lemmas.PatternCreate
+import Reamber.Lemmas.PatternNoteLists
+import Reamber.Generated.PatternTables
+
+namespace Reamber.Pattern
+
+/-! ### tie to the source -/
+
+def rowsSubset {α} [BEq α] (a b : List (List α)) : Bool := a.all b.contains
+def sameRows {α} [BEq α] (a b : List (List α)) : Bool := rowsSubset a b && rowsSubset b a
+
+/-- Tie to the source: class hierarchy (`issubclass` over the classes of `Ty`), option bit values, default
+arguments, and — probed by calling the two templates with a recording `combinations` — the literal arguments the
+templates pass (sizes, `make_size2`, the three filters' row sets and `exclude` flags, including the effect of the
+conditional-expression precedence in `template_chord_stream`). Re-checked whenever the source changes. -/
+theorem consts_tie :
+    Ty.all.map Ty.name = Generated.Pattern.classNames ∧
+    Ty.all.map (fun a => Ty.all.map (fun b => isSub a b)) = Generated.Pattern.subclassTable ∧
+    [optRepeat, optHMirror, optVMirror, optAnyOrder, optAndLower, optAndHigher, optTypeAnyOrder, optTypeMirror]
+      = Generated.Pattern.optionBits ∧
+    Generated.Pattern.groupDefaults = ((50 : Rat), (none : Option Int), true) ∧
+    Generated.Pattern.includeTailsDefault = true ∧
+    Generated.Pattern.combinationsDefaults = (2, false) ∧
+    Generated.Pattern.chordStreamProbes.all (fun p =>
+      let (primary, secondary, keys, andLower, includeJack) := p.1
+      let fs := chordStreamFilters primary secondary keys andLower includeJack
+      p.2.size == 2 && p.2.fold == true
+      && (match p.2.chord with | some (ar, inv) => sameRows ar fs.1.ar && inv == fs.1.invert | none => false)
+      && (match p.2.combo, fs.2.1 with
+          | some (ar, k, inv), some f => sameRows ar f.ar && k == f.keys && inv == f.invert
+          | none, none => true
+          | _, _ => false)
+      && (match p.2.type with
+          | some (ar, inv) => sameRows ar (fs.2.2.ar.map (·.map Ty.name)) && inv == fs.2.2.invert | none => false)) = true ∧
+    Generated.Pattern.jackProbes.all (fun p =>
+      let (minLen, keys) := p.1
+      let fs := jackFilters minLen keys
+      p.2.size == minLen && p.2.fold == true && p.2.chord.isNone
+      && (match p.2.combo with
+          | some (ar, k, inv) => sameRows ar fs.1.ar && k == fs.1.keys && inv == fs.1.invert | none => false)
+      && (match p.2.type with
+          | some (ar, inv) => sameRows ar (fs.2.ar.map (·.map Ty.name)) && inv == fs.2.invert | none => false)) = true := by
+  decide +kernel
+
+/-! ### the frame -/
+
+/-- `Pattern.__init__` keeps exactly the given notes and orders them by offset -/
+theorem pattern_sorted_perm (rows : List Row) : patternSpec rows (mkPattern rows) = true := by
+  simp only [patternSpec, Bool.and_eq_true, List.isPerm_iff, sortedOffB_iff]
+  exact ⟨isort_perm _ _, isort_sorted _⟩
+
+/-- `Pattern.from_note_lists`: the frame holds every note of every list and — when tails are requested — one
+`HoldTail` at `offset + length` per item of every list whose item class is a `Hold`; nothing else; sorted. -/
+theorem from_note_lists_spec (nls : List NoteList) (includeTails : Bool) :
+    patternSpec (expectedRows nls includeTails) (fromNoteLists nls includeTails) = true := by
+  simp only [patternSpec, Bool.and_eq_true, List.isPerm_iff, sortedOffB_iff]
+  exact ⟨fromNoteLists_perm nls includeTails, isort_sorted _⟩
+
+/-! ### grouping -/
+
+/-- `group` succeeds only past its two guards, and then returns what the loop produces -/
+theorem group_ok_inv (rows : List Row) (v : Rat) (h : Option Int) (aj : Bool) (gs : List (List Row))
+    (hg : group rows v h aj = .ok gs) :
+    0 ≤ v ∧ (∀ hw, h = some hw → 0 ≤ hw) ∧
+      gs = groupLoop v h aj (rows.map (fun r => (r, false))) 0 rows.length := by
+  unfold group at hg
+  by_cases hv : v < 0
+  · simp [hv] at hg
+  · cases h with
+    | none =>
+      simp [hv] at hg
+      exact ⟨not_lt.mp hv, by simp, hg.symm⟩
+    | some hw =>
+      by_cases hh : hw < 0
+      · simp [hv, hh] at hg
+      · simp [hv, hh] at hg
+        exact ⟨not_lt.mp hv, by intro x e; cases e; omega, hg.symm⟩
+
+/-- **group_partition**: every note (and hold tail, when the frame contains tails) is in exactly one group —
+for every frame, every `v ≥ 0`, `h ∈ {None, 0, 1, …}`, both jack settings. No sortedness needed. -/
+theorem group_partition (rows : List Row) (v : Rat) (h : Option Int) (aj : Bool) (gs : List (List Row))
+    (hg : group rows v h aj = .ok gs) : partitionOk rows gs = true := by
+  obtain ⟨hv', hh', rfl⟩ := group_ok_inv rows v h aj gs hg
+  have := groupLoop_perm v h aj hv' hh' rows.length [] (rows.map (fun r => (r, false))) (by simp) (by simp)
+  simp only [List.nil_append, List.length_nil] at this
+  have hu : ungrouped (rows.map (fun r => (r, false))) = rows := by
+    simp [ungrouped, List.filter_map, Function.comp_def]
+  rw [hu] at this
+  simp only [partitionOk, List.isPerm_iff]
+  exact this
+
+/-- **group_vwindow / group_hwindow / group_no_repeat**: in every group the first note is the leader, all times
+lie in `[t, t + v]` of it, all columns within `h` of it, and no column repeats when jacks are avoided —
+for every frame sorted by offset (which `Pattern.__init__` establishes, `pattern_sorted_perm`). -/
+theorem group_windows (rows : List Row) (v : Rat) (h : Option Int) (aj : Bool) (gs : List (List Row))
+    (hs : SortedOff rows) (hg : group rows v h aj = .ok gs) : ∀ g ∈ gs, groupOk v h aj g = true := by
+  obtain ⟨hv', hh', rfl⟩ := group_ok_inv rows v h aj gs hg
+  have := groupLoop_groupOk v h aj hv' hh' rows.length [] (rows.map (fun r => (r, false))) (by simp) (by simp)
+    (by simpa [Function.comp_def] using hs)
+  simpa using this
+
+/-- the grouping half of C20, as the one predicate the harness evaluates -/
+theorem group_spec (rows : List Row) (v : Rat) (h : Option Int) (aj : Bool) (gs : List (List Row))
+    (hs : SortedOff rows) (hg : group rows v h aj = .ok gs) : groupSpec rows v h aj gs = true := by
+  simp only [groupSpec, Bool.and_eq_true, List.all_eq_true]
+  exact ⟨group_partition rows v h aj gs hg, group_windows rows v h aj gs hs hg⟩
+
+theorem group_vwindow (rows : List Row) (v : Rat) (h : Option Int) (aj : Bool) (gs : List (List Row))
+    (hs : SortedOff rows) (hg : group rows v h aj = .ok gs) (g : List Row) (hgm : g ∈ gs) :
+    ∃ l t, g = l :: t ∧ ∀ r ∈ g, l.off ≤ r.off ∧ r.off ≤ l.off + v := by
+  have := group_windows rows v h aj gs hs hg g hgm
+  simp only [groupOk, Bool.and_eq_true] at this
+  cases g with
+  | nil => simp [vWindowOk] at this
+  | cons l t =>
+    refine ⟨l, t, rfl, ?_⟩
+    have hv := this.1.1
+    simp only [vWindowOk, List.all_eq_true, Bool.and_eq_true, decide_eq_true_eq] at hv
+    exact hv
+
+theorem group_hwindow (rows : List Row) (v : Rat) (hw : Int) (aj : Bool) (gs : List (List Row))
+    (hs : SortedOff rows) (hg : group rows v (some hw) aj = .ok gs) (g : List Row) (hgm : g ∈ gs) :
+    ∃ l t, g = l :: t ∧ ∀ r ∈ g, ((l.col - r.col).natAbs : Int) ≤ hw := by
+  have := group_windows rows v (some hw) aj gs hs hg g hgm
+  simp only [groupOk, Bool.and_eq_true] at this
+  cases g with
+  | nil => simp [vWindowOk] at this
+  | cons l t =>
+    refine ⟨l, t, rfl, ?_⟩
+    have hh := this.1.2
+    simp only [hWindowOk, List.all_eq_true, decide_eq_true_eq] at hh
+    exact hh
+
+theorem group_no_repeat (rows : List Row) (v : Rat) (h : Option Int) (gs : List (List Row))
+    (hs : SortedOff rows) (hg : group rows v h true = .ok gs) (g : List Row) (hgm : g ∈ gs) :
+    (g.map (·.col)).Nodup := by
+  have := group_windows rows v h true gs hs hg g hgm
+  simp only [groupOk, Bool.and_eq_true, noRepeatOk, Bool.not_true, Bool.false_or, decide_eq_true_eq] at this
+  exact this.2
+
+/-- the error branch is covered explicitly: negative windows raise `ValueError`, nothing else does -/
+theorem group_guard (rows : List Row) (v : Rat) (h : Option Int) (aj : Bool) :
+    (group rows v h aj = .error .value ↔ (v < 0 ∨ ∃ hw, h = some hw ∧ hw < 0)) := by
+  unfold group
+  by_cases hv : v < 0
+  · simp [hv]
+  · cases h with
+    | none => simp [hv]
+    | some hw =>
+      by_cases hh : hw < 0
+      · simp [hv, hh]
+      · simp [hv, hh]
+
+/-! ### combinations -/
+
+/-- **combinations_iff** — none missing, none extra: a sequence is reported for size `n` iff for some `i` it takes
+one note from each of the groups `i, …, i+n-1` and the chunk passes the chord-size filter, the sequence the column
+filter and the type filter. For arbitrary filter callables. -/
+theorem combinations_iff (gs : List (List Row)) (n : Nat) (F : Filters) (s : List Row) :
+    s ∈ (combinations gs n F).flatten ↔
+      ∃ i, i + n ≤ gs.length ∧ OneEach s ((gs.drop i).take n) ∧
+        chordOk F ((gs.drop i).take n) = true ∧ comboOk F s = true ∧ typeOk F s = true := by
+  rw [mem_combinations_iff]
+  simp only [allowed, List.any_eq_true, List.mem_range, Bool.and_eq_true, takesOneEach_iff]
+  constructor
+  · rintro ⟨i, hi, ⟨⟨⟨h1, h2⟩, h3⟩, h4⟩⟩
+    exact ⟨i, by omega, h1, h2, h3, h4⟩
+  · rintro ⟨i, hi, h1, h2, h3, h4⟩
+    exact ⟨i, by omega, ⟨⟨⟨h1, h2⟩, h3⟩, h4⟩⟩
+
+/-- the model's output satisfies the predicate the harness evaluates on the implementation's output -/
+theorem combos_spec (gs : List (List Row)) (n : Nat) (F : Filters) :
+    combosSpec gs n F (combinations gs n F).flatten = true := by
+  simp only [combosSpec, Bool.and_eq_true, List.all_eq_true, Bool.or_eq_true, Bool.not_eq_true',
+    List.contains_iff_mem]
+  refine ⟨fun s hs => (mem_combinations_iff gs n F s).mp hs, fun s _ => ?_⟩
+  cases h : allowed gs n F s
+  · exact Or.inl rfl
+  · exact Or.inr ((mem_combinations_iff gs n F s).mpr h)
+
+/-- folded output (`make_size2=True`): exactly the adjacent pairs of the allowed sequences -/
+theorem folded_spec (gs : List (List Row)) (n : Nat) (F : Filters) :
+    foldedSpec gs n F (foldSize2 (combinations gs n F)).flatten = true := by
+  have key : ∀ p, p ∈ (foldSize2 (combinations gs n F)).flatten ↔
+      p ∈ ((candidates gs n).filter (allowed gs n F)).flatMap adjPairs := by
+    intro p
+    simp only [foldSize2, List.mem_flatten, List.mem_map, List.mem_flatMap, List.mem_filter]
+    constructor
+    · rintro ⟨l, ⟨c, hc, rfl⟩, hp⟩
+      obtain ⟨s, hs, hps⟩ := List.mem_flatMap.mp hp
+      have hall := (mem_combinations_iff gs n F s).mp (List.mem_flatten.mpr ⟨c, hc, hs⟩)
+      exact ⟨s, ⟨allowed_mem_candidates gs n F s hall, hall⟩, hps⟩
+    · rintro ⟨s, ⟨_, hall⟩, hps⟩
+      obtain ⟨c, hc, hs⟩ := List.mem_flatten.mp ((mem_combinations_iff gs n F s).mpr hall)
+      exact ⟨c.flatMap adjPairs, ⟨c, hc, rfl⟩, List.mem_flatMap.mpr ⟨s, hs, hps⟩⟩
+  simp only [foldedSpec, Bool.and_eq_true, List.all_eq_true, List.contains_iff_mem]
+  exact ⟨fun p hp => (key p).mp hp, fun p hp => (key p).mpr hp⟩
+
+/-- **combo_hash_injective**: the base-`keys` positional code is injective on rows of equal length over the
+columns `0 … keys-1` -/
+theorem combo_hash_injective (keys : Int) (l1 l2 : List Int) (hlen : l1.length = l2.length)
+    (h1 : inRange keys l1 = true) (h2 : inRange keys l2 = true) (h : hashCols keys l1 = hashCols keys l2) :
+    l1 = l2 := hashCols_inj keys l1 l2 hlen h1 h2 h
+
+/-- … so the hash-based column filter *is* row membership (when `keys` is the key count of the map) -/
+theorem combo_filter_is_membership (f : ComboFilter) (data : List Int)
+    (har : ∀ r ∈ f.ar, r.length = data.length ∧ inRange f.keys r = true) (hd : inRange f.keys data = true) :
+    f.filter data = comboMember f.ar f.invert data := by
+  simp only [ComboFilter.filter, comboMember, bxor, contains_map_hash f.keys f.ar data har hd]
+
+/-- outside that range the hash collides: with `keys = 4` the row `[0, 4]` also accepts `[1, 0]` -/
+theorem combo_hash_collision :
+    (⟨[[0, 4]], 4, false⟩ : ComboFilter).filter [1, 0] = true ∧ comboMember [[0, 4]] false [1, 0] = false := by
+  decide +kernel
+
+/-- chord membership (after the D20 repair): the filter accepts exactly the listed rows of group sizes -/
+theorem chord_filter_is_membership (f : ChordFilter) (sizes : List Int) :
+    f.filter sizes = chordMember f.ar f.invert sizes := by
+  simp only [ChordFilter.filter, chordMember, bxor, any_beq_eq_contains]
+
+/-- D20 (repaired in the source, `2e03af7`): numpy's element-wise `data in self.ar` accepted every row sharing one
+entry with a listed row — the filter `{[1,2],[2,1]}` accepted `[2,2]`, `[1,1]`, `[2,3]`, `[3,1]` -/
+theorem chord_in_counterexample :
+    let f : ChordFilter := ⟨[[1, 2], [2, 1]], false⟩
+    [[2, 2], [1, 1], [2, 3], [3, 1]].all (fun d => chordFilterElementwise f d && !chordMember f.ar f.invert d) = true := by
+  decide +kernel
+
+theorem any_typeRowMatch (ar : List (List Ty)) (tys : List Ty) (har : ∀ r ∈ ar, r.length = tys.length) :
+    ar.any (fun tf => typeRowMatch tys tf) = ar.any (subRow tys) := by
+  induction ar with
+  | nil => rfl
+  | cons r t ih =>
+    simp only [List.any_cons, typeRowMatch_eq_subRow tys r (har r (List.mem_cons_self ..)),
+      ih (fun r hr => har r (List.mem_cons_of_mem _ hr))]
+
+/-- type filter: some listed row is position-wise a superclass row of the sequence's types -/
+theorem type_filter_is_membership (f : TypeFilter) (tys : List Ty) (har : ∀ r ∈ f.ar, r.length = tys.length) :
+    f.filter tys = typeMember f.ar f.invert tys := by
+  simp only [TypeFilter.filter, typeMember, bxor, any_typeRowMatch f.ar tys har]
+
+/-! ### option expansions equal their declarative sets -/
+
+/-- REPEAT: exactly the sideways translations of the base row that stay inside the `keys` columns -/
+theorem repeat_iff (keys : Int) (c row : List Int) (hc : c ≠ []) :
+    row ∈ repeatExpand keys c ↔ ∃ d : Int, row = c.map (· + d) ∧ ∀ x ∈ row, 0 ≤ x ∧ x < keys := by
+  rw [mem_repeatExpand keys c row hc]
+  cases c with
+  | nil => exact absurd rfl hc
+  | cons b0 bt =>
+    cases row with
+    | nil =>
+      simp only [isTranslate, Bool.false_eq_true, false_iff]
+      rintro ⟨d, hd, _⟩; simp at hd
+    | cons r0 rt =>
+      simp only [isTranslate, Bool.and_eq_true, beq_iff_eq, inRange_iff]
+      constructor
+      · rintro ⟨h1, h2⟩; exact ⟨r0 - b0, h1, h2⟩
+      · rintro ⟨d, h1, h2⟩
+        refine ⟨?_, h2⟩
+        have : r0 = b0 + d := by simp only [List.map_cons, List.cons.injEq] at h1; exact h1.1
+        have hd : r0 - b0 = d := by omega
+        rw [hd]; exact h1
+
+theorem combo_create_iff (combos : List (List Int)) (keys : Int) (opts : Nat) (exclude : Bool) (row : List Int)
+    (hc : ∀ c ∈ combos, c ≠ []) :
+    row ∈ (comboCreate combos keys opts exclude).ar ↔ comboSpecMem combos keys opts row = true :=
+  mem_comboCreateAr combos keys opts row hc
+
+theorem chord_create_iff (sizes : List (List Int)) (keys : Int) (opts : Nat) (exclude : Bool) (row : List Int) :
+    row ∈ (chordCreate sizes keys opts exclude).ar ↔ chordSpecMem sizes keys opts row = true :=
+  mem_chordCreateAr sizes keys opts row
+
+theorem type_create_iff (types : List (List Ty)) (opts : Nat) (exclude : Bool) (row : List Ty) :
+    row ∈ (typeCreate types opts exclude).ar ↔ typeSpecMem types opts row = true :=
+  mem_typeCreateAr types opts row
+
+/-- ANY_ORDER: exactly the rearrangements -/
+theorem perms_iff {α} (s t : List α) : s ∈ perms t ↔ s.Perm t := mem_perms s t
+
+/-- the cartesian product behind `np.meshgrid`: exactly the sequences taking one element from each list -/
+theorem product_iff {α} (s : List α) (ls : List (List α)) : s ∈ product ls ↔ OneEach s ls := mem_product s ls
+
+/-- observation (not part of C20's statement): without `and_lower`, `template_chord_stream(2, 1, …)` filters for the
+chunk sizes `[2, 1]` only — `[1, 2]` is not accepted — because `ANY_ORDER | AND_LOWER if and_lower else 0` parses as
+`(ANY_ORDER | AND_LOWER) if and_lower else 0`. -/
+theorem chord_stream_options_precedence :
+    (chordStreamFilters 2 1 4 false false).1.ar = [[2, 1]] ∧
+    sameRows (chordStreamFilters 2 1 4 true false).1.ar [[1, 1], [1, 2], [2, 1]] = true := by
+  decide +kernel
+
+/-! ### non-vacuity: the hypotheses are satisfiable on non-trivial values, and the model computes -/
+
+/-- the suite's eight-note pattern, `v = 100`, jacks avoided -/
+example : (group [⟨0, 0, .hit⟩, ⟨1, 0, .hit⟩, ⟨1, 100, .hit⟩, ⟨2, 100, .hold⟩, ⟨2, 200, .holdTail⟩, ⟨3, 200, .hit⟩, ⟨2, 300, .hit⟩]
+    100 none true).toOption =
+    some [[⟨0, 0, .hit⟩, ⟨1, 0, .hit⟩, ⟨2, 100, .hold⟩], [⟨1, 100, .hit⟩, ⟨2, 200, .holdTail⟩, ⟨3, 200, .hit⟩], [⟨2, 300, .hit⟩]] := by
+  decide +kernel
+
+example : SortedOff [⟨0, 0, .hit⟩, ⟨1, 0, .hit⟩, ⟨1, 100, .hit⟩] := by
+  rw [← sortedOffB_iff]; decide +kernel
+
+example : (group [⟨0, 0, .hit⟩, ⟨2, 0, .hit⟩, ⟨1, 50, .hit⟩] 50 (some 1) true).toOption =
+    some [[⟨0, 0, .hit⟩, ⟨1, 50, .hit⟩], [⟨2, 0, .hit⟩]] := by decide +kernel
+
+example : (combinations [[⟨0, 0, .hit⟩, ⟨1, 0, .hit⟩], [⟨1, 100, .hit⟩]] 2
+    { combo := some (comboCreate [[0, 0]] 4 optRepeat true).filter }).flatten = [[⟨0, 0, .hit⟩, ⟨1, 100, .hit⟩]] := by
+  decide +kernel
+
+example : fromNoteLists [⟨.hit, [(0, 0, 0), (1, 100, 0)]⟩, ⟨.osuHold, [(2, 50, 100)]⟩, ⟨.hold, []⟩] true =
+    [⟨0, 0, .hit⟩, ⟨2, 50, .osuHold⟩, ⟨1, 100, .hit⟩, ⟨2, 150, .holdTail⟩] := by decide +kernel
+
+example : inRange 4 [0, 3] = true ∧ inRange 4 [1, 2] = true := by decide
+example : ∃ d : Int, [1, 3] = [0, 2].map (· + d) ∧ ∀ x ∈ [1, 3], 0 ≤ x ∧ x < (4 : Int) := ⟨1, by decide, by decide⟩
+example : sameRows (comboCreateAr [[0, 2, 2]] 4 7) [[0, 0, 2], [0, 2, 2], [1, 1, 3], [1, 3, 3], [2, 0, 0], [2, 2, 0], [3, 1, 1], [3, 3, 1]] = true := by
+  decide +kernel
+
+end Reamber.Pattern
